@@ -40,7 +40,9 @@ def patches(filters):
 
 def sha(p):
     h = hashlib.sha256(open(p, "rb").read())
-    drv = os.path.join(V, "driver", "src", "main.rs")
+    drv = os.path.join(V, ".cache", "driver_main_v1.rs")   # facts format version of the store (additive driver changes keep it)
+    if not os.path.exists(drv):
+        drv = os.path.join(V, "driver", "src", "main.rs")
     h.update(open(drv, "rb").read())
     return h.hexdigest()[:20]
 
